@@ -677,7 +677,7 @@ func (r *runner) runJoin() {
 		ServerName:    servers["R"].name,
 		PrivateKey:    J.priv,
 		KeyID:         J.keyID,
-		KeyRing:       keyRing(),
+		KeyRing:       keyRing(nil),
 		EventProvider: func(roomVer gmsl.RoomVersion, eventIDs []string) ([]gmsl.PDU, error) { return nil, nil },
 		UserIDQuerier: userIDQuerier("ok"),
 		GetOrCreateSenderID: func(ctx context.Context, userID spec.UserID, roomID spec.RoomID, roomVersion string) (spec.SenderID, ed25519PrivateKey, error) {
